@@ -141,7 +141,7 @@ func vC05(nActs int, acts []int, ways int) {
 		case actRegister:
 			a.send(&wamp.Register{Request: 12, Procedure: "a.proc"})
 		case actCallPending:
-			a.send(&wamp.Call{Request: 13, Procedure: "b.proc", Options: wamp.Dict{"receive_progress": true}})
+			a.send(&wamp.Call{Request: 13, Procedure: "b.proc", Options: wamp.Dict{"receive_progress": true, "timeout": int64(60000)}})
 			inv, n := vFindMsg[*wamp.Invocation](b.drain())
 			vAssert("b-got-invocation", n == 1)
 			invAtB = inv
@@ -151,7 +151,7 @@ func vC05(nActs int, acts []int, ways int) {
 				did[actRegister] = true
 				a.drain()
 			}
-			b.send(&wamp.Call{Request: 14, Procedure: "a.proc"})
+			b.send(&wamp.Call{Request: 14, Procedure: "a.proc", Options: wamp.Dict{"timeout": int64(60000)}})
 		case actRefusedCall:
 			a.send(&wamp.Call{Request: 15, Procedure: "b.proc", Options: wamp.Dict{"disclose_me": true}})
 		case actRefusedCall2:
